@@ -395,6 +395,14 @@ def ops_proto(r, n):
             body[txt_off:txt_off + 4] = (max(0, ln - 16 - enc)).to_bytes(4, "little")
         ops.append("proto_fn error_pdu %s ; %02x0a%s%s%s%s ; %s" % (st(s0), r.choice([0, 1, 2]), (r.choice([0, 1, 2, 3, 4, 5, 6, 8, 9])).to_bytes(2, "little").hex(),
                                                                       ln.to_bytes(4, "little").hex(), (enc % U32).to_bytes(4, "little").hex(), body.hex(), ans(0, 0, "", sock())))
+        # rtr_send_pdu: the conversion's answer (the converted copy), then the transport's answer(s): complete, short, would-block,
+        # interrupted, error, closed - the PDU is handed to tr_send_all exactly once
+        pl = r.choice([8, 12, 12, 20, 32, 123])
+        pdu = bytes(r.randrange(256) for _ in range(pl))
+        conv = bytes(r.randrange(256) for _ in range(pl))
+        s1 = sock(state=r.choice([s0[5], s0[5], 9]))
+        outs = [ans(0, 0, conv.hex(), s1)] + [ans(r.choice([pl, pl, 5, 0, -1, -2, -3, -4]), 0, "", s1) for _ in range(3)]
+        ops.append("proto_fn send_pdu %s ; %s ; %s" % (st(s1), pdu.hex(), " ; ".join(outs)))
         # rtr_sync: a few rounds of answers (cancel, receive, cancel, then the dispatch)
         rounds = []
         cur = s0
